@@ -26,6 +26,13 @@ theorem peekSlack_eq : Gen.bdatLfPeekSlack = 0 := rfl
 theorem okCode_eq : Gen.bdatOkCode = 250 := rfl
 theorem bufSlack_eq : Gen.bdatBufSlack = 1 := rfl
 theorem argOff_eq : Gen.bdatArgOff = 5 := rfl
+/-- what `Bdat.session` (and the harness' dispatcher) assumes about the BDAT row of `commands[]`:
+flags 5 = takes arguments + blank required (and no own length check: lines > 510 are refused), the
+row leaves `comstate` alone, BDAT is allowed after RCPT (0x40) and inside a transfer (`bdatState`) -/
+theorem bdatFlags_eq : Gen.bdatFlags = 5 := rfl
+theorem bdatRow_keeps_state : Gen.bdatRowStateIsKeep = 1 := rfl
+theorem bdatMask_eq : Gen.bdatMask = 0x40 ||| Gen.bdatState := by decide
+theorem bdatState_eq : Gen.bdatState = 0x0800 := rfl
 
 /-! ## lists -/
 
@@ -845,15 +852,23 @@ theorem getS_lt (d : List Byte) (i : Nat) (h : i < d.length) : getS d i = some d
 theorem getS_end (d : List Byte) : getS d d.length = some 0 := by
   unfold getS; simp
 
+theorem memchrB_eq (c : Byte) (l : List Byte) (n : Nat) : memchrB c l n = memchr c (l.take n) := by
+  induction l generalizing n with
+  | nil => simp [memchrB, memchr]
+  | cons x xs ih =>
+    cases n with
+    | zero => simp [memchrB, memchr]
+    | succ k => simp [memchrB, memchr, ih]
+
 theorem memchrCR_tail (d : List Byte) (start : Nat) (h : start ≤ d.length) :
     memchrCR d start (d.length + 1 - start) = .ok ((memchr CR (d.drop start)).map (· + start)) := by
   unfold memchrCR
-  rw [if_pos (by omega), List.take_of_length_le (by simp [List.length_drop]; omega)]
+  rw [if_pos (by omega), memchrB_eq, List.take_of_length_le (by simp [List.length_drop]; omega)]
 
 theorem memchrCR_exact (d : List Byte) (start : Nat) (h : start ≤ d.length) :
     memchrCR d start (d.length - start) = .ok ((memchr CR (d.drop start)).map (· + start)) := by
   unfold memchrCR
-  rw [if_pos (by omega), List.take_of_length_le (by simp [List.length_drop])]
+  rw [if_pos (by omega), memchrB_eq, List.take_of_length_le (by simp [List.length_drop])]
 
 theorem innerLoop_spec (d : List Byte) (pos : Nat) (fuel c : Nat) (hpc : pos ≤ c) (hc : c < d.length)
     (hcr : d[c]? = some CR) (hf : d.length - c < fuel + 1) :
@@ -1077,15 +1092,41 @@ theorem qwrite_ok (e : Env) (he : e.wlim = none) (bs : List Byte) (st : Rx) (hq 
     qwrite e bs st = .ok { st with qbuf := st.qbuf ++ bs } := by
   unfold qwrite; rw [if_neg (by simp [hq]), he]
 
-theorem qwrites_ok (e : Env) (he : e.wlim = none) (ws : List (List Byte)) (st : Rx) (hq : st.qfd = true) :
-    qwrites e ws st = .ok { st with qbuf := st.qbuf ++ ws.flatten } := by
+theorem qwritesSeq_ok (e : Env) (he : e.wlim = none) (ws : List (List Byte)) (st : Rx) (hq : st.qfd = true) :
+    qwritesSeq e ws st = .ok { st with qbuf := st.qbuf ++ ws.flatten } := by
   induction ws generalizing st with
-  | nil => simp [qwrites]
+  | nil => simp [qwritesSeq]
   | cons w t ih =>
-    rw [qwrites, qwrite_ok e he w st hq]
+    rw [qwritesSeq, qwrite_ok e he w st hq]
     simp only
     rw [ih { st with qbuf := st.qbuf ++ w } hq]
     simp [List.append_assoc]
+
+theorem qwrites_ok (e : Env) (he : e.wlim = none) (ws : List (List Byte)) (st : Rx) (hq : st.qfd = true) :
+    qwrites e ws st = .ok { st with qbuf := st.qbuf ++ ws.flatten } := by
+  unfold qwrites
+  rw [he]
+  simp only
+  by_cases hw : ws = []
+  · subst hw; simp
+  · rw [if_neg hw, if_pos hq]
+
+/-- the shortcut in `qwrites` does not change its meaning -/
+theorem qwrites_eq_seq (e : Env) (ws : List (List Byte)) (st : Rx) : qwrites e ws st = qwritesSeq e ws st := by
+  unfold qwrites
+  cases he : e.wlim with
+  | some l => rfl
+  | none =>
+    simp only
+    by_cases hw : ws = []
+    · subst hw; simp [qwritesSeq]
+    · rw [if_neg hw]
+      by_cases hq : st.qfd = true
+      · rw [if_pos hq, qwritesSeq_ok e he ws st hq]
+      · rw [if_neg hq]
+        cases ws with
+        | nil => exact absurd rfl hw
+        | cons w t => simp [qwritesSeq, qwrite, hq]
 
 theorem join_spec (D d qbuf : List Byte) (p : Bool) (h1 : qbuf ++ pend p = crlfToLf D)
     (h2 : p = true ↔ D.getLast? = some CR) :
@@ -1262,6 +1303,177 @@ theorem chunkLoop_spec (e : Env) (he : e.wlim = none) (hb : 2 ≤ e.bufsz) (isLa
           rw [hrd1, List.drop_drop, hX'len]; congr 1; omega
         · intro hl _
           exact hL3 hl (by intro h; rw [h] at hX'len; simp at hX'len; omega)
+
+
+/-! ## the frames of the theorem are what the independent frame parser accepts -/
+
+theorem toNat_digit (k : Nat) (h : k < 10) : (UInt8.ofNat (48 + k)).toNat = 48 + k := by
+  rw [UInt8.toNat_ofNat']; omega
+
+theorem isDigit_digit (k : Nat) (h : k < 10) : isDigit (UInt8.ofNat (48 + k)) = true := by
+  unfold isDigit; rw [toNat_digit k h]; simp; omega
+
+theorem dec_step (n : Nat) (h : 10 ≤ n) : dec n = dec (n / 10) ++ [UInt8.ofNat (48 + n % 10)] := by
+  rw [dec, dif_neg (by omega)]
+
+theorem dec_small (n : Nat) (h : n < 10) : dec n = [UInt8.ofNat (48 + n)] := by
+  rw [dec, dif_pos h]
+
+theorem dec_all_digits (n : Nat) : ∀ b ∈ dec n, isDigit b = true := by
+  induction n using Nat.strongRecOn with
+  | _ n ih =>
+    by_cases h : n < 10
+    · rw [dec_small n h]; intro b hb; rw [List.mem_singleton.mp hb]; exact isDigit_digit n h
+    · rw [dec_step n (by omega)]
+      intro b hb
+      rcases List.mem_append.mp hb with hb | hb
+      · exact ih (n / 10) (by omega) b hb
+      · rw [List.mem_singleton.mp hb]; exact isDigit_digit _ (Nat.mod_lt n (by decide : 0 < 10))
+
+theorem decVal_snoc (l : List Byte) (b : Byte) : decVal (l ++ [b]) = decVal l * 10 + (b.toNat - 48) := by
+  unfold decVal; rw [List.foldl_append]; rfl
+
+theorem decVal_dec (n : Nat) : decVal (dec n) = n := by
+  induction n using Nat.strongRecOn with
+  | _ n ih =>
+    by_cases h : n < 10
+    · rw [dec_small n h]; simp [decVal]; omega
+    · rw [dec_step n (by omega), decVal_snoc, ih (n / 10) (by omega), toNat_digit _ (Nat.mod_lt n (by decide : 0 < 10))]
+      omega
+
+theorem dec_ne_nil (n : Nat) : dec n ≠ [] := by
+  intro h
+  have := dec_length n
+  rw [h] at this
+  by_cases h0 : n = 0
+  · simp [h0] at this
+  · rw [if_neg h0, digits_pos n h0] at this; simp at this; omega
+
+theorem dec_head (n : Nat) (h : 1 ≤ n) : (dec n).head? ≠ some 48 := by
+  induction n using Nat.strongRecOn with
+  | _ n ih =>
+    by_cases h10 : n < 10
+    · rw [dec_small n h10]
+      simp only [List.head?_cons, ne_eq, Option.some.injEq]
+      intro hh
+      have := congrArg UInt8.toNat hh
+      rw [toNat_digit n h10] at this
+      simp at this; omega
+    · rw [dec_step n (by omega)]
+      have hne := dec_ne_nil (n / 10)
+      cases hd : dec (n / 10) with
+      | nil => exact absurd hd hne
+      | cons x t =>
+        have := ih (n / 10) (by omega) (by omega)
+        rw [hd] at this
+        simpa using this
+
+theorem takeWhile_digits (ds rest : List Byte) (x : Byte) (h : ∀ b ∈ ds, isDigit b = true) (hx : isDigit x = false) :
+    (ds ++ x :: rest).takeWhile isDigit = ds ∧ (ds ++ x :: rest).dropWhile isDigit = x :: rest := by
+  induction ds with
+  | nil => simp [hx]
+  | cons d t ih =>
+    have hd := h d (by simp)
+    have := ih (fun b hb => h b (List.mem_cons_of_mem _ hb))
+    simp [hd, this.1, this.2]
+
+/-- every frame of the theorems is accepted by the frame parser of the executable predicate, with
+exactly the announced length, the LAST flag and the payload -/
+theorem parseFrame_frame (p : List Byte) (last : Bool) :
+    parseFrame (hdrBytes p.length last ++ p) = some ⟨p.length, last, p⟩ := by
+  have hds := dec_all_digits p.length
+  have hlead : ¬ ((dec p.length).length > 1 ∧ (dec p.length).head? = some 48) := by
+    intro hh
+    by_cases h0 : p.length = 0
+    · rw [h0, dec_small 0 (by omega)] at hh; simp at hh
+    · exact dec_head p.length (by omega) hh.2
+  unfold parseFrame hdrBytes
+  cases last with
+  | false =>
+    have htw := takeWhile_digits (dec p.length) (LF :: p) CR hds (by decide)
+    simp only [Bool.false_eq_true, if_false, List.append_assoc]
+    have e1 : (bdatSp ++ (dec p.length ++ ([CR, LF] ++ p))).take 5 = bdatSp := by simp [bdatSp]
+    have e2 : (bdatSp ++ (dec p.length ++ ([CR, LF] ++ p))).drop 5 = dec p.length ++ CR :: LF :: p := by simp [bdatSp]
+    rw [e1, e2, htw.1, htw.2]
+    simp only [ne_eq, not_true_eq_false, if_false]
+    rw [if_neg (by intro h; rcases h with h | h; exact dec_ne_nil _ h; exact hlead h)]
+    simp [lastSp, decVal_dec, CR, LF]
+  | true =>
+    have htw := takeWhile_digits (dec p.length) ([76, 65, 83, 84, 13, 10] ++ p) 32 hds (by decide)
+    simp only [if_true, List.append_assoc]
+    have e1 : (bdatSp ++ (dec p.length ++ (lastCrlf ++ p))).take 5 = bdatSp := by simp [bdatSp]
+    have e2 : (bdatSp ++ (dec p.length ++ (lastCrlf ++ p))).drop 5 =
+        dec p.length ++ 32 :: ([76, 65, 83, 84, 13, 10] ++ p) := by simp [bdatSp, lastCrlf]
+    rw [e1, e2, htw.1, htw.2]
+    simp only [ne_eq, not_true_eq_false, if_false]
+    rw [if_neg (by intro h; rcases h with h | h; exact dec_ne_nil _ h; exact hlead h)]
+    simp [lastSp, decVal_dec, CR, LF]
+
+theorem parseFrames_framesOf (pays : List (List Byte)) (h : pays ≠ []) :
+    ∃ fs, (framesOf pays).mapM parseFrame = some fs ∧ fs.map (·.pay) = pays ∧
+      (∀ f ∈ fs, f.n = f.pay.length) ∧ lastFlagsOk fs = true := by
+  induction pays with
+  | nil => exact absurd rfl h
+  | cons p ps ih =>
+    cases ps with
+    | nil =>
+      refine ⟨[⟨p.length, true, p⟩], ?_, rfl, ?_, rfl⟩
+      · simp [framesOf, parseFrame_frame]
+      · intro f hf; simp at hf; rw [hf]
+    | cons q r =>
+      obtain ⟨fs, h1, h2, h3, h4⟩ := ih (by simp)
+      refine ⟨⟨p.length, false, p⟩ :: fs, ?_, ?_, ?_, ?_⟩
+      · rw [framesOf]
+        simp [parseFrame_frame, h1]
+      · simp [h2]
+      · intro f hf
+        rcases List.mem_cons.mp hf with rfl | hf
+        · rfl
+        · exact h3 f hf
+      · cases fs with
+        | nil => simp at h2
+        | cons g gs => simp [lastFlagsOk, h4]
+
+
+/-- no CR of `m` is bare: each is followed by LF -/
+def NoBareCR (m : List Byte) : Prop := ∀ i, m[i]? = some CR → m[i + 1]? = some LF
+
+theorem noBareCR_tail (b : Byte) (t : List Byte) (h : NoBareCR (b :: t)) : NoBareCR t := by
+  intro i hi
+  have := h (i + 1) (by simpa using hi)
+  simpa using this
+
+/-- for messages without a bare CR, `normOk` pins the payload down completely -/
+theorem normOk_unique (p : Bool) (m out : List Byte) (hcr : NoBareCR m)
+    (h : normOk p m out = true) : out = normalizeLf p m := by
+  induction m generalizing p out with
+  | nil => simpa [normOk, normalizeLf] using h
+  | cons b t ih =>
+    have ht := noBareCR_tail b t hcr
+    by_cases hb : b = LF ∧ ¬ (p = true)
+    · cases out with
+      | nil => simp [normOk, hb] at h
+      | cons x o =>
+        cases o with
+        | nil => simp [normOk, hb] at h
+        | cons y o' =>
+          simp [normOk, hb] at h
+          obtain ⟨rfl, rfl, h3⟩ := h
+          have := ih false o' ht h3
+          simp only [normalizeLf, hb]
+          rw [show decide (LF = CR) = false by decide, ← this]; simp
+    · cases out with
+      | nil => simp [normOk, hb] at h
+      | cons x o =>
+        have hnb : ¬ (b = CR ∧ t.head? ≠ some LF) := by
+          intro hh
+          have := hcr 0 (by simp [hh.1])
+          exact hh.2 (by rw [List.head?_eq_getElem?]; simpa using this)
+        simp only [normOk, hb, if_false, hnb, decide_eq_true_eq] at h
+        obtain ⟨rfl, h2⟩ := h
+        have := ih _ o ht h2
+        simp only [normalizeLf, hb, if_false, List.singleton_append]
+        rw [← this]
 
 
 end QsmtpModel.Bdat
